@@ -60,6 +60,43 @@ def setup():
     pass
 
 
+def _rejected_call(acc, how, m, cc, dd, rec):
+    """A call the library refuses; returns False if it was (unexpectedly) accepted, in which
+    case nothing is asserted about the accumulator afterwards."""
+    import os
+    import tempfile
+    from bob.learn.em import GMMStats
+    tmp = None
+    try:
+        if how == "load_missing_file":
+            acc.load("/nonexistent-dir/verif-c02-missing.hdf5")
+        elif how == "load_machine_file":
+            fd, tmp = tempfile.mkstemp(prefix="verif-c02-", suffix=".hdf5")
+            os.close(fd)
+            import h5py
+            with h5py.File(tmp, "w") as f:
+                m.save(f)
+            acc.load(tmp)
+        elif how == "iadd_wrong_shape":
+            other = GMMStats(cc + 1, dd)
+            other.t = 3
+            other.n = other.n + 1.0
+            acc += other
+        else:
+            acc += 1.5
+    except Exception:
+        rec.probe("rejected_call_on_accumulator_" + how)
+        rec.faults["F10_rejected_call"] = rec.faults.get("F10_rejected_call", 0) + 1
+        return True
+    finally:
+        if tmp is not None:
+            import gc
+            gc.collect()
+            os.unlink(tmp)
+    rec.probe("invalid_call_on_accumulator_accepted_" + how)
+    return False
+
+
 # ---------------------------------------------------------------------------
 def _gen_machine(rng, X, c):
     n, d = X.shape
@@ -179,6 +216,9 @@ def gen_case(rng, tier, n=None, blocks=None, merge=None):
         "merge": merge if merge is not None else _gen_merge(rng, nb),
         "lazy": lazy,
         "acc_how": rng.choice(["fresh", "reset", "resize", "init_fields"]),
+        "acc_reject": rng.choice([None] * 5 + ["load_missing_file", "load_machine_file",
+                                               "iadd_wrong_shape", "add_non_statistics"]),
+        "acc_reject_at": rng.randint(0, 64),
         "xform": rng.choice([None, None, None, None, "fortran", "strided", "float32"]),
         "sched": gen_sched(rng),
     }
@@ -438,9 +478,15 @@ def run_case(case, replay=None):
             else:  # init_fields without arguments
                 acc = _copy.deepcopy(pool[-1])
                 acc.init_fields()
-            for st in pool:
+            rej, rej_ok = case.get("acc_reject"), True
+            rej_at = case.get("acc_reject_at", 0) % len(pool)
+            for j, st in enumerate(pool):
                 acc += _copy.deepcopy(st)
-            acc_snap = _concrete(acc)
+                if rej and j == rej_at:
+                    # the caller makes a call on the accumulator that is refused, catches the
+                    # exception and goes on accumulating
+                    rej_ok = _rejected_call(acc, rej, m, cc, dd, rec)
+            acc_snap = _concrete(acc) if rej_ok else None
         except HarnessError:
             raise
         except Exception as e:
